@@ -33,6 +33,9 @@ func genLZWCase(r *sim.Rng, tier string, interop bool, contract bool) *LZCase {
 	pre := GenLZCfg(r, 0, big, interop)
 	max := maxPayloadFor(pre.Matcher, 0, pre.DictCap, want)
 	pl := sim.GenPayload(r, max)
+	if pre.DictCap != 0 && pre.DictCap <= 1<<16 && r.Chance(1, 7) && (pre.Matcher == 0 || pre.DictCap <= 8192) {
+		pl = dictAwarePayload(r, pre.DictCap, pre.BufSize)
+	}
 	n := pl.Len()
 	cfg := pre
 	if cfg.HasSize() || cfg.SizeInHeader {
